@@ -17,9 +17,28 @@ def _mod(name, **attrs):
     return m
 
 
+def _guard_c_level_int_conversions():
+    """operator.index() (CPython >= 3.10) copies the C-level value of an int SUBCLASS instead of calling __index__: for a symbolic
+    integer that value is a meaningless 0.  A symbolic integer is returned as it is (the index of an integer is that integer); other symbolic values refuse."""
+    import operator
+    if getattr(operator.index, '_pfv_guard', False):
+        return
+    orig = operator.index
+
+    def index(a):
+        if hasattr(a, '_term'):
+            if isinstance(a, int):
+                return a                    # the index of an integer is that integer: stays symbolic
+            return a.__index__()
+        return orig(a)
+    index._pfv_guard = True
+    operator.index = index
+
+
 def install():
     if _installed[0]:
         return sys.modules['torch']
+    _guard_c_level_int_conversions()
     if 'torch' in sys.modules and not getattr(sys.modules['torch'], '_pfv_shim', False):
         raise RuntimeError('real torch already imported; the verifier must run without it')
     T = tt
